@@ -8,6 +8,10 @@ package tree
 // Ghost state per node: owner (the tree the node is linked into; nil once unlinked), height
 // (leaves 0), pidx (index in the parent's children).
 
+// The contracts of this package are layered by property label (C01 ordering / abstract map, C02 cursors,
+// unlabelled = C03 structure): when one property is checked, clauses labelled only for others are off.
+//@ layers
+
 //@ ghost btree.nodes set[*node[K, V]]
 //@ ghost btree.dead set[*node[K, V]]
 //@ ghost node.owner *btree[K, V]
